@@ -30,6 +30,7 @@ from .Kernel.FileHandlers.Writer.WriteT4Geometry import (convertMCNPGeometry,
 from .Kernel.FileHandlers.Writer.WriteT4Composition import writeT4Composition
 from .Kernel.FileHandlers.Writer.WriteT4GeomComp import writeT4GeomComp
 from .Kernel.FileHandlers.Writer.WriteT4BoundCond import writeT4BoundCond
+from .Kernel.Volume.ConstructVolumeT4 import extract_used_surfaces
 from .Kernel.Volume.Lattice import parse_ranges
 
 
@@ -129,14 +130,15 @@ def conversion(args):
     with t4_output_filename.open('w') as ofile:
         writeHeader(ofile)
         (dic_surf_mcnp, dic_surface_t4, dic_volumes_t4, mcnp_new_dict,
-         skipped_cells) = geom_conv
+         skipped_cells, renumber) = geom_conv
         writeT4Geometry(dic_surface_t4, dic_volumes_t4, skipped_cells, ofile)
         if not args.skip_compositions:
             writeT4Composition(mcnp_parser, mcnp_new_dict, ofile)
         if not args.skip_geomcomp:
             writeT4GeomComp(dic_volumes_t4, mcnp_new_dict, ofile)
         if not args.skip_boundary_conditions:
-            writeT4BoundCond(dic_surf_mcnp, ofile)
+            surf_used = extract_used_surfaces(dic_volumes_t4.values())
+            writeT4BoundCond(dic_surf_mcnp, renumber, surf_used, ofile)
 
     if skipped_cells:
         print('\nNOTE: the following cells have been omitted from the '
